@@ -502,6 +502,7 @@ def execute(h):
             curs.append(Money.new_unit(c['sym'], c['sym'], c['minor']))
     n_cur = len(curs)
     convs, models = [], []
+    real_clock = set()
     # does the default clock of a converter really read the simulated system
     # date?  (the seam is the name `date` in quantity.money; if a
     # refactoring moved it, converters without callable would read the real
@@ -528,7 +529,19 @@ def execute(h):
                 tz - 1]
     for c in cfg['convs']:
         base = curs[c['base'] % n_cur]
-        if c['clock'] == 'callable' or not shim_ok:
+        if c['clock'] == 'default' and not shim_ok and len(convs) % 2:
+            # the default clock does not read the simulated system date
+            # (the seam moved): such a converter reads the real clock, its
+            # default-date lookups cannot be judged by value - but they
+            # must still answer (a rate, None, cannot-convert), not crash
+            real_clock.add(len(convs))
+            cclk.append(world.SimClock(dt.date(2000, 1, 1)))
+            convs.append([lambda: MoneyConverter(base),
+                          lambda: MoneyConverter(base, None),
+                          lambda: MoneyConverter(
+                              base, get_dflt_effective_date=None)][
+                                  len(convs) % 3]())
+        elif c['clock'] == 'callable' or not shim_ok:
             own = world.SimClock(dt.date.fromisoformat(
                 c.get('clock0', cfg['clock0'])))
             clocks.append(own)
@@ -536,7 +549,13 @@ def execute(h):
             convs.append(MoneyConverter(base, get_dflt_effective_date=own))
         else:
             cclk.append(sysclock)
-            convs.append(MoneyConverter(base))
+            # "no callable" is spelled by leaving the argument out, or as
+            # the documented default None
+            convs.append([lambda: MoneyConverter(base),
+                          lambda: MoneyConverter(base, None),
+                          lambda: MoneyConverter(
+                              base, get_dflt_effective_date=None)][
+                                  len(convs) % 3]())
         models.append(RefRates())
     probe_dates = [dt.date.fromisoformat(s) for s in cfg['probe_dates']]
 
@@ -712,6 +731,18 @@ def execute(h):
             # an update will be made from inside the lookup: the answer may
             # reflect the state before it or the state after it
             pre = expected_rate(ci, a, b, today0, count=False)
+        if ci in real_clock and d is None:
+            try:
+                if op[0] == 'get':
+                    conv.get_rate(curs[a], curs[b])
+                else:
+                    conv(Money(Fraction(op[5]), curs[a]), curs[b])
+                return 'answered'
+            except (ValueError, UnitConversionError):
+                return 'declined'
+            except Exception as e:      # noqa
+                violate('lookup', 'default_date_lookup_crashed', i,
+                        op=op[0], conv=ci, observed=type(e).__name__)
         if op[0] == 'get':
             o = observe(lambda: canon_rate(
                 conv.get_rate(curs[a], curs[b], d)))
@@ -798,7 +829,7 @@ def execute(h):
         its own default effective date decides."""
         ci = op[1] % len(convs)
         a, b = op[2] % n_cur, op[3] % n_cur
-        if a == b:
+        if a == b or ci in real_clock:
             return 'skipped'
         conv, clock = convs[ci], cclk[ci]
         ma = Money(Fraction(op[4]), curs[a])
